@@ -1411,9 +1411,13 @@ class Runner:
         na, nb = norm(a), norm(b)
         self._last_target = b
         self._below = b.startswith(a + DELIM)
+        lands = [x for x in m.real if x.startswith(na + DELIM)
+                 and norm(b + x[len(na):]) in m.real
+                 and not norm(b + x[len(na):]).startswith(na + DELIM)]
         dcls = ':target-below-source' if b.startswith(a + DELIM) else (
-            ':inbox-inferior' if any(first_is_inbox(x) and DELIM in x
-                                     for x in (a, b)) else '')
+            ':inferior-onto-existing' if lands and st != 'missing' else (
+                ':inbox-inferior' if any(first_is_inbox(x) and DELIM in x
+                                         for x in (a, b)) else ''))
         r = await self.cmd(b'RENAME ' + wire_name(a) + b' '
                            + wire_name(b), dcls)
         ok = r.ok
@@ -1603,7 +1607,7 @@ class C11(Check):
     time_cap = {'quick': 60.0, 'thorough': 600.0}
 
     def cases(self, tier: str, seed: int) -> Iterable[dict[str, Any]]:
-        n = 1000 if tier == 'quick' else 14000
+        n = 2000 if tier == 'quick' else 30000
         rng = random.Random(seed * 7919 + 11)
         # listed findings switch their input class off (entries may restrict
         # this to some backends with "avoid_backends": [...])
